@@ -1,6 +1,6 @@
 """C13 - calls bind arguments exactly as CPython does.
 
-Generated modules hold ~40 callees (six callee kinds) whose bodies return all
+Generated modules hold ~40 callees (twelve callee kinds) whose bodies return all
 their parameters, and one call per line with arguments of pairwise distinct
 types.  CPython executes the same definitions and the same call expressions
 (and inspect.signature(...).bind is asked as a second opinion).  Compared:
@@ -454,27 +454,32 @@ def _tasks(tier, seed):
       "call_shapes": "0..#positional+1 (+1 with *va) positionals x keyword subsets (<=3; <=2 when a star-parameter name is used) of params + the callee's own *va/**kw names + 1 unknown"}
   if tier == "quick":
     ns1 = 23
-    frac1 = {"func": 1.0, "method": 0.3, "classmethod": 0.3, "staticmethod": 0.3, "init": 0.3, "lambda": 0.3}
+    frac1 = {"func": 1.0, "method": 0.2, "classmethod": 0.2, "staticmethod": 0.2, "init": 0.2, "lambda": 0.2}
+    frac1.update({k: 0.15 for k in S.CTOR_KINDS})
     info["exhaustive <=1 parameter of each kind"]["call_fraction"] = frac1
     for s in range(ns1):
       add(f"exh1/{s}", mode="exhaustive", max_per_kind=1, kinds=S.KINDS, max_kw=3, shard=s, nshards=ns1,
           star_fraction=0.15, call_fraction=frac1)
-    for b in range(16):
+    for b in range(14):
       add(f"rnd/{b}", mode="random", count=22, calls_per_sig=12, star_fraction=0.3)
   else:
     ns1 = 16
+    frac1 = {k: 0.5 for k in S.KINDS}
+    frac1["func"] = 1.0
+    info["exhaustive <=1 parameter of each kind"]["call_fraction"] = frac1
     for s in range(ns1):
       add(f"exh1/{s}", mode="exhaustive", max_per_kind=1, kinds=S.KINDS, max_kw=3, shard=s, nshards=ns1,
-          star_fraction=0.3)
+          star_fraction=0.3, call_fraction=frac1)
     ns2 = 160
-    frac = {"func": 1.0, "method": 0.1, "classmethod": 0.06, "staticmethod": 0.06, "init": 0.1, "lambda": 0.06}
+    frac = {"func": 1.0, "method": 0.08, "classmethod": 0.05, "staticmethod": 0.05, "init": 0.08, "lambda": 0.05}
+    frac.update({k: 0.03 for k in S.CTOR_KINDS})
     for s in range(ns2):
       add(f"exh2/{s}", mode="exhaustive", max_per_kind=2, kinds=S.KINDS, max_kw=3, shard=s, nshards=ns2,
           call_fraction=frac, star_fraction=0.03)
     info["exhaustive <=2 parameters of each kind"] = {
         "signatures": len(S.enumerate_signatures(2)), "call_fraction_by_kind": frac,
         "call_shapes": "0..#positional+1 (+1 with *va) positionals x keyword subsets (<=3; <=2 when a star-parameter name is used) of params + the callee's own *va/**kw names + 1 unknown"}
-    for b in range(80):
+    for b in range(64):
       add(f"rnd/{b}", mode="random", count=40, calls_per_sig=16, star_fraction=0.35)
   return tasks, info
 
@@ -484,8 +489,10 @@ def run(tier, seed):
       PID, tier, seed,
       rule=("signatures over positional-only / positional-or-keyword / keyword-only parameters (each with or "
             "without default), optional *va, **kw; calls = n positionals + keyword-name subset (parameter names, the "
-            "callee's own *va / **kw parameter names, one unknown name), some with literal *seq / **map; six callee kinds (function, method, classmethod, "
-            "staticmethod, __init__, lambda). Exhaustive slices as listed under exhaustive_slices + random larger "
+            "callee's own *va / **kw parameter names, one unknown name), some with literal *seq / **map; "
+            "twelve callee kinds (function, method, classmethod, staticmethod, __init__, lambda, and really "
+            "constructed classes: own __new__, __new__ inherited over 1/2 levels, __init__ inherited over 1/2 "
+            "levels, __new__ + __init__). Exhaustive slices as listed under exhaustive_slices + random larger "
             "signatures (<=3 per kind). evaluations = calls judged by CPython and pytype. non-trivial = the "
             "signature has a default, *va or **kw, or the call uses keywords / *seq / **map; distinct by "
             "(callee kind, signature kind vector, call shape)."))
